@@ -41,8 +41,8 @@ def Listener_Handshake : List String := ["io.ReadFull", "io.ReadFull", "conn.Wri
 def Listener_Handshake_lits : List Nat := [2, 0, 0, 1, 0, 4, 0, 0, 1, 3, 4, 1, 0, 16, 2]
 def Listener_SendError : List String := ["conn.Write"]
 def Listener_SendError_lits : List Nat := [0, 0, 0, 0, 0, 0, 0]
-def SocksAdapter_handleHandshake : List String := ["io.ReadAtLeast", "io.ReadFull", "conn.Write", "s.handlePasswordAuth"]
-def SocksAdapter_handleHandshake_lits : List Nat := [257, 2, 0, 1, 2, 2, 2, 2]
+def SocksAdapter_handleHandshake : List String := ["io.ReadFull", "io.ReadFull", "conn.Write", "s.handlePasswordAuth"]
+def SocksAdapter_handleHandshake_lits : List Nat := [2, 0, 1]
 def SocksAdapter_handlePasswordAuth : List String := ["io.ReadFull", "io.ReadFull", "io.ReadFull", "io.ReadFull", "conn.Write"]
 def SocksAdapter_handlePasswordAuth_lits : List Nat := [2, 0, 1, 1, 1, 0, 0, 1, 1]
 def SocksAdapter_handleRequest : List String := ["io.ReadFull", "s.sendReply", "io.ReadFull", "io.ReadFull", "io.ReadFull", "io.ReadFull", "s.sendReply", "io.ReadFull"]
@@ -51,7 +51,7 @@ def SocksAdapter_handleSocksConnection : List String := ["s.handleHandshake", "s
 def UDPRelay_buildUDPHeader : List String := ["net.ParseIP", "ip.To4", "copy", "binary.BigEndian.PutUint16", "copy", "ip.To16", "copy", "binary.BigEndian.PutUint16", "copy", "copy", "binary.BigEndian.PutUint16", "copy"]
 def UDPRelay_buildUDPHeader_lits : List Nat := [10, 0, 0, 1, 0, 2, 0, 3, 4, 8, 8, 10, 10, 22, 0, 0, 1, 0, 2, 0, 3, 4, 20, 20, 22, 22, 5, 2, 0, 0, 1, 0, 2, 0, 3, 4, 5, 5, 5, 5, 2]
 def UDPRelay_parseUDPHeader : List String := ["len", "len", "net.IP", "len", "len", "len", "net.IP", "binary.BigEndian.Uint16"]
-def UDPRelay_parseUDPHeader_lits : List Nat := [10, 0, 2, 0, 0, 2, 3, 10, 0, 4, 8, 10, 5, 0, 4, 5, 2, 0, 5, 5, 5, 2, 22, 0, 4, 20, 22, 0, 2]
+def UDPRelay_parseUDPHeader_lits : List Nat := [4, 0, 2, 0, 0, 2, 3, 10, 0, 4, 8, 10, 5, 0, 4, 5, 2, 0, 5, 5, 5, 2, 22, 0, 4, 20, 22, 0, 2]
 end Skel
 
 end Gen
